@@ -53,6 +53,23 @@ def scenario_families(rnd, tier):
     # with its own boundary; the partitions are applied to the SECOND response
     B3 = mkB(8, [12, 25], 0)
     fams.append((B3, [1, 3, 5, 7], "", "SESSION second multipart response of a session, new boundary"))
+    # one-byte chunks: a multipart part whose Content-Range is N-N
+    ch1 = [b""] + [corpus.text(rnd, n) for n in (8, 1, 20, 1, 40, 1)]
+    B1b = ref.build_file(ch1, comp_type=0, hash_type=1, chunk_hash_type=3)[0]
+    fams.append((B1b, [2, 4], "", "two one-byte chunks, two parts"))
+    fams.append((B1b, [1, 4, 6], "", "one-byte chunks among others, the last chunk of the file one byte"))
+    fams.append((B1b, [2], "forcemulti=1", "a single one-byte chunk sent as multipart"))
+    # the SAME download handle used again after a response that went wrong (as zckdl's loop and the documented
+    # procedure do): the first response is damaged or stops inside a chunk, the partitions are applied to the next,
+    # well-formed response, which has to complete the file (DRound: wellFormed and undamaged => complete, all valid)
+    e1 = delta.extents(ref.parse_header(B1))
+    fams.append((B1, [1, 3], "", "RETRY[corrupt=3] well-formed response after one with a damaged first part"))
+    fams.append((B1, [1, 3], "", "RETRY[corrupt=%d] well-formed response after one with a damaged last part" % (e1[1][1] - e1[1][0] + 2)))
+    fams.append((B1, [2, 3], "", "RETRY[stop=%d] well-formed response after one that stopped inside a chunk" % (e1[2][1] - e1[2][0] + 3)))
+    fams.append((B1, [2, 3], "", "RETRY[stop=%d] well-formed response after one that stopped at a chunk end" % (e1[2][1] - e1[2][0])))
+    fams.append((B2, [1, 3, 5], "", "RETRY[corrupt=1] zstd, well-formed multipart response after a damaged one"))
+    fams.append((Bbig, [1, 3], "", "RETRY[corrupt=20000] BIGR well-formed response after a damaged multi-block part"))
+    fams.append((Bbig, [1, 3], "", "RETRY[stop=50000] BIGR well-formed response after one that stopped inside a multi-block chunk"))
     bsel = BOUNDARIES if tier == "thorough" else ["3d6b6a416f9b5", "a_b-c", "simple.boundary", "x:y=z", "plus+sign", "paren(s)", "q?mark"]
     for b in bsel:
         fams.append((B1, [1, 4], "boundary=%s%s" % (b, " quoted=1" if rnd.random() < 0.5 else ""), "boundary %s" % b))
@@ -80,11 +97,14 @@ def run(tier):
             T[a3:a3 + 40000] = B[a3:a3 + 40000]; del T[a3 + 40000:]
         T = bytes(T)
         # the one-call run tells us the body length
-        session = tag.startswith("SESSION")
-        lim, nrounds, cutr = (2, 2, 1) if session else (-1, 1, 0)
-        def ropts(popt):
+        retry = tag.split("]")[0][6:] if tag.startswith("RETRY[") else None
+        session = tag.startswith("SESSION") or retry is not None
+        lim, nrounds, cutr = ((2, 2, 1) if retry is None else (-1, 2, 1)) if session else (-1, 1, 0)
+        def ropts(popt, retry=retry, session=session):
             if not session:
                 return None
+            if retry is not None:
+                return {0: retry, 1: popt}
             return {0: "boundary=first-resp", 1: ("boundary=second+resp " + popt).strip()}
         base = delta.Scenario("f%d-base" % fi, wd, B, T, limit=lim, frag=0, rounds=nrounds, final=False, fetch_opts=opts, round_opts=ropts(""), name="%s: one call" % tag)
         base.write_files()
@@ -108,12 +128,15 @@ def run(tier):
                 sc.write_files(); members.append(sc); scs.append(sc)
             groups.append((base, base_events, members, tag))
             continue
-        ones = list(range(1, bl))
+        bigr = "BIGR" in tag
+        if bigr:
+            parts = [("16 KiB", "cuts=" + ",".join(str(x) for x in range(16384, bl, 16384)), 0), ("4096", "cuts=" + ",".join(str(x) for x in range(4096, bl, 4096)), 0)]
+        ones = list(range(1, bl)) if not bigr else rnd.sample(range(1, bl), 12 if tier == "quick" else 60)
         if tier == "quick" and len(ones) > 120 and fi >= 10:
             ones = rnd.sample(ones, 120)
         for c in ones:
             parts.append(("cut %d" % c, "cuts=%d" % c, 0))
-        twos = list(itertools.combinations(range(1, bl), 2))
+        twos = list(itertools.combinations(range(1, bl), 2)) if not bigr else [tuple(sorted(rnd.sample(range(1, bl), 2))) for _ in range(6)]
         ntwo = (len(twos) if (tier == "thorough" and fi in (0, 2)) else (400 if tier == "thorough" else 40))
         for (a, b) in (twos if ntwo >= len(twos) else rnd.sample(twos, ntwo)):
             parts.append(("cuts %d,%d" % (a, b), "cuts=%d,%d" % (a, b), 0))
